@@ -17,7 +17,8 @@ CONSTANTS PROPS        \* set of property ids whose clauses are evaluated, e.g. 
 Session == {"OPENSENT", "OPENCONFIRM", "ESTABLISHED"}
 Up == {"OPENCONFIRM", "ESTABLISHED"}
 PeerMsg == {"OPEN_OK", "OPEN_BADVER", "OPEN_BADAS", "OPEN_BADHOLD", "OPEN_SHORT", "KA", "KA_BODY", "UPD", "UPD_BAD",
-            "NOTIF_VER", "NOTIF", "NOTIF_SHORT", "RR", "RR_BAD", "HDR_MARKER", "HDR_LEN", "HDR_TYPE", "DATA"}
+            "NOTIF_VER", "NOTIF", "NOTIF_SHORT", "RR", "RR_BAD", "HDR_MARKER", "HDR_LEN", "HDR_TYPE", "DATA",
+            "FUZZ_OPEN", "FUZZ_UPD", "FUZZ_NOTIF", "FUZZ_RR", "FUZZ_KA", "FUZZ_RAW", "PROBE", "UPD_AS"}
 TimerEv == {"T_CR", "T_HOLD", "T_KA", "T_IDLE", "T_DUE"}
 MsgReports == {"update_received", "on_update_error", "open_received", "keepalive_received",
                "notification_received", "route_refresh_received"}
@@ -164,9 +165,14 @@ C18_Stat(mon, r) == mon.statok => StatOk(r)      \* reported on the step that ma
 (***************************** C10: containment ****************************)
 C10_NoEscape(r) == r.exc = 0 /\ ~r.hang
 C10_OneReport(r) == r.cls \in PeerMsg => NMsgReports(r) <= 1
+\* a malformed UPDATE body (any body in a frame of legal UPDATE length) never tears an Established session down
 C10_BadUpdate(r) ==
-   (r.cls = "UPD_BAD" /\ Live(r) /\ r.pst = "ESTABLISHED") =>
-      (r.st = "ESTABLISHED" /\ Quiet(r) /\ NMsgReports(r) = 1 /\ InSeq("on_update_error", r.rep))
+   /\ (r.cls = "UPD_BAD" /\ Live(r) /\ r.pst = "ESTABLISHED") =>
+         (r.st = "ESTABLISHED" /\ Quiet(r) /\ NMsgReports(r) = 1 /\ InSeq("on_update_error", r.rep))
+   /\ (r.cls = "FUZZ_UPD" /\ Live(r) /\ r.pst = "ESTABLISHED" /\ r.flen >= 23 /\ r.flen <= 4096) =>
+         (r.st = "ESTABLISHED" /\ Quiet(r))
+\* ... and never changes how the messages after it are decoded: the known-good probe decodes as on a fresh agent
+C10_Probe(r) == r.cls = "PROBE" => (r.probeok /\ InSeq("update_received", r.rep) /\ r.st = "ESTABLISHED" /\ Quiet(r))
 C10_After(r, stopped) ==     \* after any input: still in session, or closed cleanly with the reconnect scheduled
    r.cls \in PeerMsg => (r.st \in Session \/ stopped \/ r.pend > 0)
 
@@ -174,6 +180,15 @@ C10_After(r, stopped) ==     \* after any input: still in session, or closed cle
 C02_Pending(r, stopped) == (~stopped /\ r.cls # "cfg") => (r.live >= 1 \/ r.pend > 0)
 
 (***************************** C05: OPEN contents **************************)
+\* acceptance policy: acc = 1: the injected OPEN must be accepted (version 4, AS = remote AS - the 4-octet value when that
+\* capability is present -, hold time not 1 or 2); acc = 2: it must be rejected with OPEN Message Error subcode esub
+C05_Accept(r) ==
+   (r.acc # 0 /\ Live(r) /\ r.pst = "OPENSENT") =>
+      IF r.acc = 1 THEN (r.st = "OPENCONFIRM" /\ Outs(r) = <<<<"KEEPALIVE", 0, 0>>>> /\ NoClose(r))
+      ELSE IsErr(r, 2, r.esub)
+\* AS numbers of later UPDATEs are read as 4-octet exactly when both sides advertised the capability in this session
+\* (the harness encodes the AS_PATH accordingly and compares what the handler got with what it sent)
+C05_AsMode(r) == r.cls = "UPD_AS" => (r.aspathok /\ InSeq("update_received", r.rep))
 C05_Open(mon, r) ==
    \A k \in 1..Len(r.out) : r.out[k].type = "OPEN" =>
       LET o == r.out[k] IN
@@ -183,12 +198,13 @@ C05_Open(mon, r) ==
       /\ (o.id_hi # 0 \/ o.id_lo # 0)
       /\ (mon.bgpid = <<>> \/ mon.bgpid = <<o.id_hi, o.id_lo>>)
       /\ \A j \in 1..Len(o.caps) : InSeq(o.caps[j], mon.cfg.caps)
+      /\ (mon.opencaps = <<-1>> \/ mon.opencaps = o.caps)      \* the same OPEN in every session: nothing leaks from earlier ones
 
 ------------------------------------------------------------------------------
 NoSess == [conn |-> 0, sentOpen |-> FALSE, gotOpen |-> FALSE, sentKa |-> FALSE, H |-> 0, start |-> 0, heard |-> 0, kasent |-> 0]
 \* stopped: "no" | "yes" (manual stop in force) | "breached" (a violation of C13 was already reported for this stop)
 Mon0 == [cfg |-> [hold |-> 0, tnum |-> 1, tden |-> 1, las_hi |-> 0, las_lo |-> 0, caps |-> <<>>], stopped |-> "no",
-         sess |-> NoSess, bgpid |-> <<>>, statok |-> TRUE]
+         sess |-> NoSess, bgpid |-> <<>>, statok |-> TRUE, opencaps |-> <<-1>>]
 
 Min(a, b) == IF a < b THEN a ELSE b
 \* monitor update after a line (uses observable fields only)
@@ -210,6 +226,8 @@ NextMon(mon, r) ==
                                  ELSE IF @ = "yes" /\ ~C13_Silent(r, TRUE) THEN "breached" ELSE @,
                     !.statok = StatOk(r),
                     !.sess = NextSess(mon, r),
+                    !.opencaps = IF @ = <<-1>> /\ (\E k \in 1..Len(r.out) : r.out[k].type = "OPEN" /\ r.out[k].wf)
+                                 THEN r.out[CHOOSE k \in 1..Len(r.out) : r.out[k].type = "OPEN" /\ r.out[k].wf].caps ELSE @,
                     !.bgpid = IF @ = <<>> /\ (\E k \in 1..Len(r.out) : r.out[k].type = "OPEN" /\ r.out[k].wf)
                               THEN LET k == CHOOSE k \in 1..Len(r.out) : r.out[k].type = "OPEN" /\ r.out[k].wf
                                    IN <<r.out[k].id_hi, r.out[k].id_lo>>
@@ -234,6 +252,9 @@ Check(mon, r) ==
    /\ Chk("C10", r, "C10.noescape", C10_NoEscape(r), <<>>)
    /\ Chk("C10", r, "C10.onereport", C10_OneReport(r), r.rep)
    /\ Chk("C10", r, "C10.badupdate", C10_BadUpdate(r), r.rep)
+   /\ Chk("C10", r, "C10.probe", C10_Probe(r), <<>>)
+   /\ Chk("C05", r, "C05.accept", C05_Accept(r), <<r.acc, r.esub, OutTypes(r)>>)
+   /\ Chk("C05", r, "C05.asmode", C05_AsMode(r), r.rep)
    /\ Chk("C10", r, "C10.after", C10_After(r, stp \/ r.cls = "STOP"), <<>>)
    /\ Chk("C02", r, "C02.pending", C02_Pending(r, stp \/ r.cls = "STOP"), <<>>)
    /\ Chk("C05", r, "C05.open", C05_Open(mon, r), <<>>)
